@@ -602,6 +602,15 @@ func runC17(c *Ctx) {
 							if len(normHeld(heldAtDeep(p, fd, x), false)) == 0 && len(normHeld(heldAtDeep(p, hfd, hfd.Body), false)) == 0 {
 								okL = false
 							}
+							// (the helper may apply the changes as well — applyLocked: they run under the lock its caller holds)
+							ast.Inspect(hfd.Body, func(m ast.Node) bool {
+								if hc, ok := m.(*ast.CallExpr); ok {
+									if hse, ok := hc.Fun.(*ast.SelectorExpr); ok && hse.Sel.Name == "Apply" {
+										n++
+									}
+								}
+								return true
+							})
 						}
 					}
 				}
